@@ -20,7 +20,7 @@ EXPLANATION = (
     "name - R8 - are followed to their consumer).")
 ASSUMPTIONS = ["program_options::variables_map::count(k) > 0 iff option k was given", "${ENV:default} placeholders in the default ini are expanded by the ini module from the environment"]
 THOROUGH_CONFIGS = [["-UNDEBUG", "-DPIKA_DEBUG"]]
-FLOORS = {"C16.R11": 1, "C16.R12": 8, "C16.R1": 11, "C16.R2": 10, "C16.R3": 8, "C16.R4": 3, "C16.R6": 1, "C16.R7": 1, "C16.R8": 1, "C16.R9": 8, "C16.R10": 1, "C16.R13": 5, "C16.R14": 12, "C16.R15": 1, "C16.R16": 6}
+FLOORS = {"C16.R11": 1, "C16.R12": 8, "C16.R1": 11, "C16.R2": 10, "C16.R3": 8, "C16.R4": 3, "C16.R6": 1, "C16.R7": 1, "C16.R8": 1, "C16.R9": 8, "C16.R10": 1, "C16.R13": 5, "C16.R14": 12, "C16.R15": 1, "C16.R16": 6, "C16.R17": 3}
 
 SETTINGS = [  # (command line option, ini key, environment variable, handler)
     ("pika:threads", "pika.os_threads", "PIKA_THREADS", "handle_num_threads"),
@@ -84,6 +84,10 @@ def run(rep, tier):
              "that reports text that is not a number. manage_config::get_value<T>(key, d) and get_entry_as<T>(cfg, key, d) convert with from_string(text, d), which answers d "
              "for any text that does not parse; a handler may use them for such a setting only after the same text went through the reporting from_string(text) "
              "(as handle_num_threads does for pika.os_threads). Otherwise --pika:ini=<key>=abc / PIKA_<KEY>=abc is ignored while the command-line twin rejects it")
+    rep.rule("C16.R17", "K4 (nothing unknown is dropped): the first parse runs with unregistered options allowed (the application's own options are not known yet) and hands what it "
+             "did not recognise to the late check, which stops start-up for an unknown --pika: option. Every parser run that goes through get_commandline_parser - the one "
+             "place that may switch allow_unregistered on - therefore collects its unrecognised tokens (collect_unrecognized) in the same function; a run whose result is stored "
+             "directly loses them: an unknown or misspelt --pika: option in an options file (--pika:options-file, @file, <app>.cfg) is silently ignored")
     rep.rule("C16.R4", "K2: prepend_options puts PIKA_COMMANDLINE_OPTIONS before argv; preliminary parse + handle_arguments precede reconfigure")
 
     PC = facts(rep, lib("command_line_handling", "src/parse_command_line.cpp"), [r"^pika::detail::"])
@@ -229,6 +233,24 @@ def run(rep, tier):
             D.setdefault(section + "." + m.group(1), []).append(m.group(2))
     if len(D) < 20:
         raise AnalysisBroken("default ini table not found (%d keys)" % len(D))
+    # ---- R17: unrecognised tokens of every parser run reach the late check
+    n17 = 0
+    for fn in PC.fns:
+        if fn.pattern or fn.parent != -1 or not fn.file.endswith("parse_command_line.cpp"):
+            continue
+        runs = [(b, i, e) for b, i, e in fn.all_events() if e.get("k") == "call" and callee_short(e) == "run" and "get_commandline_parser(" in T(e)]
+        for b, i, e in runs:
+            n17 += 1
+            coll = [x for _, _, x in fn.all_events() if x.get("k") == "call" and callee_short(x) == "collect_unrecognized"]
+            if coll:
+                rep.ok("C16.R17", fn, "%s: the parser run at %s is followed by collect_unrecognized" % (fn.qname.rsplit("::", 1)[-1], loc_of(e).rsplit(":", 1)[-1]))
+            else:
+                rep.bad("C16.R17", fn, loc_of(e), "unrecognised-dropped:" + fn.qname.rsplit("::", 1)[-1], "%s runs a parser that may allow unregistered options (get_commandline_parser) and "
+                        "stores the result without collecting what was not recognised: an unknown --pika: option given in an options file is ignored instead of stopping start-up "
+                        "(the same option on the command line is rejected by the late check)" % fn.qname.rsplit("::", 1)[-1])
+    if n17 < 3:
+        raise AnalysisBroken("C16.R17: only %d parser runs through get_commandline_parser found" % n17)
+
     # ---- R16: numeric settings and text that is not a number
     helpers = {}
     for hname in ("manage_config::get_value", "get_entry_as"):
